@@ -44,6 +44,13 @@ _KB = ("Kani on the real crate (harness modules appended in a scratch copy): eac
        "satisfying the precondition, one call, postcondition asserted -- complete below the stated bound (unwinding assertions on, "
        "cover properties as vacuity guards); a failure is replayed natively on the real code with Kani's concrete playback. ")
 CHECKS.update({
+    "C08": {"engine": "verus", "design_ref": "DESIGN.md 5 (C08), 10.7",
+            "technique": "Verus per-call contract of StreamChunker::pump against a ghost stream + one-step tiling lemma",
+            "text": _VX + "pump, for every stream, every reader chunking (short reads / Interrupted) and every block size incl. 0 and 1: "
+                    "Sentinel <=> FE FD at the current position; Data = exactly the next bytes, non-empty, FE FD neither inside nor straddling "
+                    "into the next chunk; Eof only when nothing is left; reported offsets are absolute end positions; terminates, no panic, no "
+                    "offset overflow. Tiling of successive calls is a one-step lemma + induction.",
+            "note": "assumed: Chain + ByteArena::read_n deliver exactly min(count, available) bytes of carried ++ stream (no hard I/O errors), AnchoredSlice operations act on the exposed bytes, find_stuff_sequence (bounded Kani); found and fixed F1 (block size 0/1)"},
     "C11": {"engine": "kani", "design_ref": "DESIGN.md 5 (C11), 10.1",
             "technique": "Kani bounded Hoare-triple harnesses against the Roughtime layout; full-usize-domain harness for the i32::MAX rule",
             "text": _KB + "Layout, emitted == rough_tlv_len, MessageView round trip, stable tie order, new_from_sorted's rejection set, "
@@ -86,7 +93,6 @@ NOT_APPLICABLE = {
     "C04": "same as C03 (backpatch visibility lives in OwningIovec/GlobalDeque unsafe code)",
     "C05": "heap-lifetime property over unsafe code; no per-call postcondition without separation logic; Kani out of memory (measured)",
     "C06": "StreamReader::next_record_bytes (labelled continue, let-else, FnMut judge over ConsumingIovec, &mut returns) is outside Verus's subset and cannot run under Kani (arena)",
-    "C08": "StreamChunker::pump hands `(&mut slice).chain(&mut reader)` to an arena read and cuts AnchoredSlices: needs a ghost model of an arbitrary `impl Read` stream behind a moved Chain adapter plus arena code; outside Verus's accepted subset here and Kani cannot load the arena (out of memory). Finding F1 (block size 0/1) is documented in DESIGN.md 6 and not repaired",
     "C10": "global allocation counters / Arc refcounts across drops: no contract within reach; Kani out of memory on the arena",
     "C13": "thread interleavings x weak memory: Kani has no threads, Verus reasons only about its own SC atomics",
     "C19": "file system + process-wide statics behind std::fs; after assuming those calls the interesting clause is true by assumption",
